@@ -894,6 +894,8 @@ func backoffRule(r *Report) {
 				return "nonneg", true
 			case token.LSS:
 				return "neg", true
+			case token.NEQ:
+				return "nonzero", true
 			}
 		}
 		return "", false
@@ -901,10 +903,13 @@ func backoffRule(r *Report) {
 	okPaths := func(dnf [][]Guard) (bool, string) {
 		for _, conj := range dnf {
 			zero, pos, noDl, room := false, false, false, false
+			nonneg, nonzero := false, false
 			for _, g := range conj {
 				if k, ok := delayCmp(g); ok {
 					zero = zero || k == "zero"
 					pos = pos || k == "pos"
+					nonneg = nonneg || k == "nonneg"
+					nonzero = nonzero || k == "nonzero"
 				}
 				if ex, ok := g.Cond.(*ssa.Extract); ok && !g.Pol && ex.Index == 1 {
 					if c, isc := ex.Tuple.(*ssa.Call); isc && CalleeName(c) == "iface:context.Context.Deadline" {
@@ -917,6 +922,7 @@ func backoffRule(r *Report) {
 					}
 				}
 			}
+			pos = pos || (nonneg && nonzero) // `delay < 0` and `delay == 0` were both excluded by earlier returns
 			if !(zero || (pos && (noDl || room))) {
 				return false, GuardStrings([][]Guard{conj})
 			}
@@ -962,6 +968,31 @@ func retryPredicateRules(r *Report, rule string) {
 			}
 			if c, isc := ret.Results[0].(*ssa.Const); isc && c.Value != nil && !constant.BoolVal(c.Value) {
 				continue // negative answer
+			}
+			// the reply/transport classification may be delegated to an unexported bool helper that is
+			// handed the error: its positive answers are judged under the caller's guards plus its own
+			if hc, isc := ret.Results[0].(*ssa.Call); isc {
+				h := hc.Call.StaticCallee()
+				takesErr := false
+				for _, a := range hc.Call.Args {
+					if prm, isp := a.(*ssa.Parameter); isp && shortType(prm.Type()) == "error" {
+						takesErr = true
+					}
+				}
+				if h != nil && h.Blocks != nil && h.Pkg == fn.Pkg && !isExportedName(h.Name()) && takesErr && h.Signature.Recv() == nil {
+					for _, hb := range h.Blocks {
+						hret, isr := hb.Instrs[len(hb.Instrs)-1].(*ssa.Return)
+						if !isr || len(hret.Results) != 1 {
+							continue
+						}
+						if c, isk := hret.Results[0].(*ssa.Const); isk && c.Value != nil && !constant.BoolVal(c.Value) {
+							continue
+						}
+						gs := append(append([]Guard{}, DomGuards(b)...), DomGuards(hb)...)
+						checkPositive(r, rule, fn, Site{h, hb, len(hb.Instrs) - 1, hret}, gs, hret.Results[0], false)
+					}
+					continue
+				}
 			}
 			checkPositive(r, rule, fn, Site{fn, b, len(b.Instrs) - 1, ret}, DomGuards(b), ret.Results[0], false)
 		}
